@@ -218,8 +218,23 @@ def hermes_state(ctx, rule):
         return
     roles = {col: "COL", nm: "NAME", ln: "LINE"}
     loops = dict(b.loops())
-    heads = [bi for bi, t in q.calls_to(b, "Iterator::next") if q.shape(q.arg_expr(b, t, 0)) == "var:Split<char>"]
-    if not ctx.check(len(heads) == 2, rule, fn, "loops", "a ';' loop with a ',' loop inside"):
+    # the two loops, recognised by what they iterate over (split on ';' / ','), with or without a
+    # `.filter(|s| !s.is_empty())` adapter in place of the `if s.is_empty() { continue }` guard
+    NONEMPTY = "\u03bb(Not(str::is_empty(p1)))"
+    its_ = {}
+    filtered = {}
+    for l in range(len(b.locals)):
+        for sh, site, _ in q.def_shapes(b, l, {}):
+            for sep, nm_ in ((59, "LINES"), (44, "SEGS")):
+                if q.wild("IntoIterator::into_iter(str::split(*,%d))" % sep, sh):
+                    its_[l] = nm_
+                    filtered[nm_] = False
+                elif q.wild("IntoIterator::into_iter(Iterator::filter(str::split(*,%d),%s))" % (sep, NONEMPTY), sh):
+                    its_[l] = nm_
+                    filtered[nm_] = True
+    roles.update(its_)
+    heads = [bi for bi, t in q.calls_to(b, "Iterator::next") if q.shape(q.arg_expr(b, t, 0), roles) in ("LINES", "SEGS")]
+    if not ctx.check(len(heads) == 2 and sorted(set(its_.values())) == ["LINES", "SEGS"], rule, fn, "loops", "a ';' loop with a ',' loop inside"):
         return
     sizes = sorted((len(loops[min((len(bl), h) for h, bl in loops.items() if hd in bl)[1]]), hd) for hd in heads)
     inner_h, outer_h = sizes[0][1], sizes[1][1]
@@ -242,17 +257,23 @@ def hermes_state(ctx, rule):
     ctx.check([l for _, l in sorted(order)] == ["column", "name", "line"], rule, fn, "order", "the segment's values are consumed in the order column, name index, line (Metro's format)", detail=str(sorted(order)))
     # every non-empty, parsable segment yields one offset
     pushes = [bi for bi, t in q.calls_to(b, "Vec::<T, A>::push") if q.shape(q.arg_expr(b, t, 1), roles).startswith("HermesScopeOffset{")]
-    empt = [d for d in range(len(b.blocks)) if b.blocks[d]["term"]["k"] == "switch" and d in inner and q.shape(b.expr_of_operand(b.blocks[d]["term"]["discr"])) == "str::is_empty(try(Iterator::next(var:Split<char>)))"]
-    if ctx.check(len(pushes) == 1 and len(empt) == 1, rule, fn, "push+empty-test", "one push per segment, empty segments tested once"):
+    empt = [d for d in range(len(b.blocks)) if b.blocks[d]["term"]["k"] == "switch" and d in inner and q.shape(b.expr_of_operand(b.blocks[d]["term"]["discr"]), roles) == "str::is_empty(try(Iterator::next(SEGS)))"]
+    pcalls = [bi for bi, t in q.calls_to(b, "vlq::parse_vlq_segment_into")]
+    if filtered.get("SEGS"):
+        body_entry = [tb for v, tb in b.blocks[b.blocks[inner_h]["term"]["t"]]["term"].get("arms", []) if v == 1]
+        if ctx.check(len(pushes) == 1 and not empt and bool(body_entry), rule, fn, "push+empty-test", "one push per segment, empty segments filtered out by the iterator"):
+            ctx.check(loop_passes(b, body_entry[0], inner_h, pushes), rule, fn, "segment:no-skip", "every non-empty segment that parses contributes an offset (no segment is dropped)")
+            ctx.ok(rule, fn, "segment:empty-skipped", "an empty segment is skipped, not parsed (the segment iterator filters empty pieces)")
+    elif ctx.check(len(pushes) == 1 and len(empt) == 1, rule, fn, "push+empty-test", "one push per segment, empty segments tested once"):
         nonempty = [tb for v, tb in b.blocks[empt[0]]["term"]["arms"] if v == 0]
         ctx.check(bool(nonempty) and loop_passes(b, nonempty[0], inner_h, pushes), rule, fn, "segment:no-skip", "every non-empty segment that parses contributes an offset (no segment is dropped)")
-        pcalls = [bi for bi, t in q.calls_to(b, "vlq::parse_vlq_segment_into")]
         ctx.check(len(pcalls) == 1 and any(c.bb == empt[0] and c.truth() is False for c in q.path_conditions(b, pcalls[0])), rule, fn, "segment:empty-skipped",
                   "an empty segment is skipped, not parsed (parsing it would fail and disable the whole function map)")
     its = [sh for l in sorted(b.var_names) for sh, _, _ in q.def_shapes(b, l, roles) if sh == "Iterator::copied(slice::iter(^var:Vec<i64>))"]
     ctx.check(len(its) == 1, rule, fn, "nums-iter", "the values are read in order from the parsed segment")
     parse = [q.shape(b.expr_of_call(t)) for bi, t in b.calls() if q.nice(t.get("callee")) == "Result::ok"]
-    ctx.check(parse == ["Result::ok(vlq::parse_vlq_segment_into(try(Iterator::next(var:Split<char>)),^var:Vec<i64>))"], rule, fn, "parse-error->None",
+    parse = [q.shape(b.expr_of_call(t), roles) for bi, t in b.calls() if q.nice(t.get("callee")) == "Result::ok"]
+    ctx.check(parse == ["Result::ok(vlq::parse_vlq_segment_into(try(Iterator::next(SEGS)),^var:Vec<i64>))"], rule, fn, "parse-error->None",
               "a segment that fails to parse disables scope lookup for this source only (.ok()? inside the per-source closure)", detail=str(parse))
     lit = [q.shape(b.expr_of_rvalue(s["rv"]), roles) for bi, si, s, it in b.locations() if not it and s["k"] == "assign" and s["rv"]["k"] == "agg" and s["rv"].get("adt") == "hermes::HermesFunctionMap"]
     ENTRY = "try(Iterator::next(slice::iter(try(Option::as_ref(arg2)))))"
@@ -263,8 +284,9 @@ def hermes_state(ctx, rule):
     lit = [q.shape(b.expr_of_rvalue(s["rv"]), lroles) for bi, si, s, it in b.locations() if not it and s["k"] == "assign" and s["rv"]["k"] == "agg" and s["rv"].get("adt") == "hermes::HermesFunctionMap"]
     ctx.check(lit == ["HermesFunctionMap{names:%s.names,mappings:OFFSETS}" % ENTRY], rule, fn, "function-map",
               "the names of the source's first scope entry and the offsets decoded in this call form the function map", detail=str(lit)[:300])
-    sp = [q.shape(b.expr_of_call(t)) for bi, t in q.calls_to(b, "str::<impl str>::split")]
-    ctx.check("str::split(%s.mappings,59)" % ENTRY in sp, rule, fn, "mappings:same-entry", "the decoded text is the mappings string of that same entry, split on ';'", detail=str(sp))
+    sp = [q.shape(b.expr_of_call(t), roles) for bi, t in q.calls_to(b, "str::<impl str>::split")]
+    ctx.check(sorted(sp) == sorted(["str::split(%s.mappings,59)" % ENTRY, "str::split(try(Iterator::next(LINES)),44)"]), rule, fn, "mappings:same-entry",
+              "the decoded text is the mappings string of that same entry, split on ';', each piece split on ','", detail=str(sp))
     h = ctx.body("hermes::decode_hermes")
     qs = [bi for bi, t in h.calls() if q.nice(t.get("callee")) == "Try::branch"]
     ctx.check(len(qs) == 2, rule, h.path, "two-?", "decode_hermes itself fails only for a missing payload or a failing regular decode", detail=str(len(qs)))
